@@ -88,6 +88,10 @@ Proof.
     + intros H. inversion H; subst. auto.
 Qed.
 
+Lemma check_meaning c ops obs :
+  C15_check c ops obs = true <-> Forall2 out_equiv (snd (srun c sinit ops)) obs.
+Proof. apply outs_eqb_equiv. Qed.
+
 (* ---- non-vacuity witnesses for the hypotheses of the theorems *)
 Definition nv_ops : list op :=
   [Reserve 0 false [0; 1; 2; 3] false [0; 1]; Reserve 1 true [0; 1; 2; 3] false [2; 3];
